@@ -172,6 +172,19 @@ func TestVerifConfigRoundTrip(t *testing.T) {
 }
 `
 
+// nearMissStrings: concrete inputs that must be rejected (or, for the case variants, accepted) by both parsers.
+func nearMissStrings() []string {
+	names := []string{"kill_thread", "kill_process", "trap", "errno", "trace", "log", "allow", "Equal", "NotEqual", "GreaterThan", "LessThan", "GreaterOrEqual", "LessOrEqual", "BitsSet", "BitsNotSet"}
+	out := []string{"", " ", "0", "1", "2", "5", "7", "-1", "017", "0x0", "0x7fff0000", "2147418112", "0x80000000", "2147483648", "0x50000", "327680", "0x50001", "4294967295",
+		"kill", "kill_", "killthread", "kill-thread", "kill thread", "allowed", "allow_all", "deny", "permit", "errno(1)", "errno:1", "errno=EPERM", "trace(0)", "notify", "user_notif", "kill_process_group",
+		"eq", "ne", "gt", "lt", "ge", "le", "==", "!=", ">", "<", ">=", "<=", "&", "GreaterThanOrEqual", "LessThanOrEqual", "EqualTo", "NotEqualTo", "Bits", "BitsSetAll", "MaskedEqual", "bits_set", "not_equal",
+		"\u017fkill_thread", "\u212aill_thread", "a\u0307llow", "ALLOW\u0130", "tra\u0440", "\u0430llow", "allow\x00", "\x00allow", "allow\x00kill_thread", strings.Repeat("allow", 2000)}
+	for _, n := range names {
+		out = append(out, strings.ToUpper(n), strings.ToLower(n), strings.Title(strings.ToLower(n)), " "+n, n+" ", "\t"+n, n+"\n", n+"\r\n", n+",", n+";", "'"+n+"'", "\""+n+"\"", n+"s", "_"+n, n+"_", n[:len(n)-1], n[1:], n+n, n+"|"+n)
+	}
+	return out
+}
+
 func init() {
 	register(&Spec{
 		ID: "C14", Dirs: []string{"root"}, Level: "model_checking",
@@ -196,6 +209,10 @@ func init() {
 			for n := 0; n <= 16; n++ {
 				jobs = append(jobs, run.Job{ID: fmt.Sprintf("unpack-operation-bytes/len%d", n), Pkg: run.Module, Harness: "H_UnpackOperationBytes", Params: map[string]interface{}{"len": n}})
 			}
+			// concrete near misses (numbers, white space, punctuation, look-alikes, long input)
+			for i, s := range nearMissStrings() {
+				jobs = append(jobs, run.Job{ID: fmt.Sprintf("unpack-concrete/%d:%q", i, s), Pkg: run.Module, Harness: "H_UnpackConcrete", Params: map[string]interface{}{"s": s}})
+			}
 			return jobs, nil
 		},
 		Extra: func(c *Ctx) ([]Finding, error) {
@@ -218,8 +235,8 @@ func init() {
 			}
 			return fs, nil
 		},
-		NeedCovers: []string{"cover.unpack.ok", "cover.unpack.rejected", "cover.unpack.case_variant", "cover.unpack_op.ok", "cover.unpack_op.rejected", "cover.roundtrip", "cover.unpack_bytes.ok", "cover.unpack_bytes.rejected", "cover.unpack_op_bytes.ok", "cover.unpack_op_bytes.rejected"},
-		Bounds:     map[string]interface{}{"strings": "all strings (equality atoms; case variants through lower()); additionally every string of up to 14 (actions) / 16 (operations) 7-bit ASCII characters as a byte vector, for code that looks at length, prefixes or single characters", "values": "all 2^32 action words for printing; the seven actions and eight operations for round trips", "tags": "every exported field of the four policy structs"},
+		NeedCovers: []string{"cover.unpack.ok", "cover.unpack.rejected", "cover.unpack.case_variant", "cover.unpack_op.ok", "cover.unpack_op.rejected", "cover.roundtrip", "cover.unpack_bytes.ok", "cover.unpack_bytes.rejected", "cover.unpack_op_bytes.ok", "cover.unpack_op_bytes.rejected", "cover.unpack_concrete"},
+		Bounds:     map[string]interface{}{"strings": "all strings (equality atoms; case variants through lower()); additionally every string of up to 14 (actions) / 16 (operations) 7-bit ASCII characters as a byte vector, for code that looks at length, prefixes or single characters; plus ~350 concrete near-miss inputs (numbers in several bases, white space, punctuation, non-ASCII look-alikes, 10 000 characters) executed concretely", "values": "all 2^32 action words for printing; the seven actions and eight operations for round trips", "tags": "every exported field of the four policy structs"},
 		Outside:    []string{"the behaviour of go-ucfg, yaml.v2 and encoding/json themselves (reflection-driven): quoting, defaults, and numeric fidelity of 64-bit operands through the text form - a design-time probe showed the JSON path (go-ucfg/json reads numbers as float64) rounding operands above 2^53; that is library behaviour this technique cannot encode and is not part of the claim", "the YAML/JSON syntax produced"},
 		Assumptions: []string{"yaml.v2 / encoding/json write a field under its yaml / json tag name and go-ucfg reads it under its config tag name, defaulting a missing key silently (library contract)", "documented names: the seven action names of the README / example policy and the eight operation names"},
 		Trusted:    []string{"equality-atom string encoding with uninterpreted lower(); byte-vector strings with strings.ToLower/ToUpper/EqualFold/HasPrefix/HasSuffix as per-byte ASCII case mapping", "gosym engine; models replayed natively", "z3/cvc5", "go/types reading of the struct tags"},
